@@ -51,11 +51,13 @@ def ops(prop):
         "C01": [("str(f)", lambda f: str(f)), ("str(f[1:])", lambda f: str(f[1:])), ("str(f+f)", lambda f: str(f + f))],
         "C05": [("from_str(str(f))", lambda f: FmtStr.from_str(str(f))), ("fmtstr(str(f))", lambda f: fmtstr(str(f)))],
         "C06": [("f[mid]", lambda f: f[n2(f)] if len(f) else None), ("f[1:-1]", lambda f: f[1:-1]), ("f[:mid]", lambda f: f[: n2(f)]), ("f+f", lambda f: f + f),
+                ("f[mid:mid+4]", lambda f: f[n2(f) : n2(f) + 4]), ("f[7:]", lambda f: f[7:]), ("f[2*mid//3]", lambda f: f[2 * n2(f) // 3] if len(f) else None),
                 ("f*3", lambda f: f * 3), ("f.join([f,'k'])", lambda f: f.join([f, "k"])), ("'<'+f", lambda f: "<" + f), ("f[-3:]", lambda f: f[-3:])],
         "C09": [("splice('Z',mid)", lambda f: f.splice("Z", n2(f))), ("splice('',1,3)", lambda f: f.splice("", 1, 3)), ("splice(fmt,0,mid)", lambda f: f.splice(fmtstr("Y", "yellow"), 0, n2(f))),
                 ("append", lambda f: f.append("Z")), ("insert at end", lambda f: f.splice("Z", len(f)))],
         "C10": [("width", lambda f: f.width), ("width_at_offset(mid)", lambda f: f.width_at_offset(n2(f))), ("width_aware_slice(1,w-1)", lambda f: f.width_aware_slice(slice(1, max(1, f.width - 1)))),
-                ("width_aware_slice(0,3)", lambda f: f.width_aware_slice(slice(0, 3)))],
+                ("width_aware_slice(0,3)", lambda f: f.width_aware_slice(slice(0, 3))), ("width_aware_slice(mid,mid+5)", lambda f: f.width_aware_slice(slice(f.width // 2, f.width // 2 + 5))),
+                ("width_aware_slice(7,w)", lambda f: f.width_aware_slice(slice(7, f.width))), ("width_at_offset(7)", lambda f: f.width_at_offset(7))],
         "C11": [("width_aware_splitlines(7)", lambda f: list(f.width_aware_splitlines(7))), ("width_aware_splitlines(2)", lambda f: list(f.width_aware_splitlines(2))),
                 ("width_aware_splitlines(80)", lambda f: list(f.width_aware_splitlines(80)))],
         "C13": [("views", lambda f: (f.s, len(f), f.width, str(f), repr(f)))],
@@ -150,3 +152,44 @@ def run_into(ctx, rep, prop):
     """Adds the repetition family of `prop` to a check's report (one shard per value; every other shard in a used process)."""
     for d in ctx.pmap(shard, [(prop, ctx.seed, vi, vi % 2 == 1) for vi in range(len(values()))]):
         rep.merge(d, "repetition_%d_calls_same_object_and_fresh_equal_objects" % REPS)
+    for d in ctx.pmap(twin_shard, [(prop, ctx.seed)]):
+        rep.merge(d, "render_twins_with_different_run_boundaries")
+
+
+def check_twins(acc, prop):
+    """Render twins (cells.twin_pairs: equal terminal string, equal hash, different run boundaries), both alive: every operation of
+    the property's menu on one, then on the other, in both orders - all four results must show the same cells (the operations' results
+    are functions of the characters and their formatting, not of where the runs are cut)."""
+    for pi, (sa, sb) in enumerate(C.twin_pairs()):
+        for order in ("value_first", "twin_first"):
+            a, b = C.build(sa), C.build(sb)
+            hash(a), hash(b)
+            first, second = (a, b) if order == "value_first" else (b, a)
+            for label, fn in ops(prop):
+                case = {"value": {"characters": len(a), "runs": len(sa), "twin_runs": len(sb), "first_runs": C.show_spec(sa[:4])}, "op": label, "order": order}
+                acc.case(True, key=("twin", prop, pi, order, label), sample=case)
+                acc.transitions += 2
+                res = []
+                for obj in (first, second, first):
+                    try:
+                        res.append(plain(fn(obj)))
+                    except Exception as ex:  # noqa
+                        res.append(("exc", type(ex).__name__))
+                if prop == "C19" and label in ("repr", "hash"):
+                    if label == "hash" and res[0] != res[1]:
+                        acc.failure("C19:equal_but_hash_differs", case, "")
+                    continue  # repr shows the run structure
+                if prop == "C13":
+                    res = [r[:4] if isinstance(r, tuple) else r for r in res]  # repr (5th view) shows the run structure
+                if res[0] != res[1] or res[0] != res[2]:
+                    which = "second" if res[0] != res[1] else "first again"
+                    acc.failure("%s:result_depends_on_an_equal_looking_other_value:%s" % (prop, label.split("(")[0]), case, "%s differs: %r vs %r" % (which, str(res[0])[:160], str(res[1] if which == "second" else res[2])[:160]))
+
+
+def twin_shard(args):
+    from mc.runner import Acc
+
+    prop, seed = args
+    acc = Acc(seed=seed)
+    check_twins(acc, prop)
+    return acc.export()
